@@ -13,6 +13,7 @@ import copy
 import json
 
 from ref import semantics as sem
+from ref import enumerate as enum
 from sim import gen
 from sim.engine import keyed_rng
 from sim.spec import spec_kinds
@@ -45,7 +46,7 @@ class C07(Check):
     nontrivial_rule = ("the incremental optimiser ran at least two iterations (or was cut short by an injected fault / limit) and the "
                        "examiner, the second optimiser or the incumbent monitor judged its result")
     expected_probes = ["exit:optimum", "exit:no_solution", "exit:unknown", "exit:max_iter", "exit:max_time", "exit:expected_time", "exit:bound",
-                       "examiner_asked", "optimisers_compared", "io_fault_in_dump", "intermediate_files_checked", "multi_objective"]
+                       "examiner_asked", "optimisers_compared", "reference_optimum_compared", "io_fault_in_dump", "intermediate_files_checked", "multi_objective"]
 
     def plan(self, run_seed, tier):
         rng = keyed_rng(run_seed, "plan")
@@ -210,6 +211,13 @@ class C07(Check):
                     v.violate("C07", "returned_is_not_last_incumbent", kinds, {"returned": val, "incumbents": incumbents[:8]}, evA["seq"], "A")
                 if any(better(x, val) for x in incumbents):
                     v.violate("C07", "early_stop_worse_than_incumbent", kinds, {"returned": val, "incumbents": incumbents[:8]}, evA["seq"], "A")
+            # independent optimum: exhaustive enumeration by the reference model (tiny specs)
+            if not cut_short and val is not None:
+                ro = enum.reference_optimum(spec, limit=2000 if plan.get("tier") != "thorough" else 6000)
+                if ro is not None:
+                    v.probe("reference_optimum_compared")
+                    if ro[1] > 0 and ro[0] != val:
+                        v.violate("C07", f"not_the_reference_optimum/{exit_tag}", kinds, {"returned": val, "reference": ro[0], "n_valid": ro[1]}, evA["seq"], "A")
             # the reported indicator value of the objective equals the engine's
             if not cut_short and val is not None:
                 if evX is not None and evX.get("outcome") in ("solution", "false"):
